@@ -196,7 +196,7 @@ Proof.
     + unfold dispatch. destruct (resolve st (m_dest m)) as [r|].
       * destruct (deliver_frame cf st c r m) as [_ F]. unfold held_dest. rewrite F. exact K.
       * unfold no_owner. destruct (m_dest m) as [u|n] eqn:Ed; [exact K|]. destruct (negb (m_noauto m) && activatable n); [|exact K].
-        destruct (can_send cf m false); [|exact K]. cbn [fst]. intros n' l x H1 H2. cbn [st_held with_held] in H1.
+        destruct (can_send cf m false && negb (unknown_type m)); [|exact K]. cbn [fst]. intros n' l x H1 H2. cbn [st_held with_held] in H1.
         apply set_held_in in H1. destruct H1 as [[-> ->]|H1]; [|apply (K n' l x H1 H2)].
         apply in_app_iff in H2. destruct H2 as [H2|[<-|[]]]; [|exact Ed]. destruct (held_for_in _ _ _ H2) as (l0 & H3 & H4). apply (K n l0 x H3 H4).
     + unfold disconnect. destruct (expire_pass cf (st_now st) (drop_pending (st_pend st) c)) as [pl oo]. cbn [fst]. intros n l x H1 H2. cbn [st_held] in H1.
@@ -216,7 +216,7 @@ Proof.
     + unfold dispatch. destruct (resolve st (m_dest m)) as [r|] eqn:R.
       * destruct (deliver_frame cf st c r m) as [(_ & _ & Fn & _) F]. unfold held_unowned. rewrite F, Fn. exact L.
       * unfold no_owner. destruct (m_dest m) as [u|n] eqn:Ed; [exact L|]. destruct (negb (m_noauto m) && activatable n); [|exact L].
-        destruct (can_send cf m false); [|exact L]. cbn [fst]. intros n' H. cbn [st_held st_names with_held] in *.
+        destruct (can_send cf m false && negb (unknown_type m)); [|exact L]. cbn [fst]. intros n' H. cbn [st_held st_names with_held] in *.
         rewrite held_for_set_held in H. destruct (n' =? n) eqn:E; [apply N.eqb_eq in E; subst n'; apply resolve_none_lookup; auto|apply L; auto].
     + unfold disconnect. destruct (expire_pass cf (st_now st) (drop_pending (st_pend st) c)) as [pl oo]. cbn [fst]. intros n H. cbn [st_held st_names] in *.
       rewrite held_for_map_filter in H. apply names_drop_lookup_none. apply L. intros E. rewrite E in H. apply H. reflexivity.
@@ -309,7 +309,7 @@ Proof.
       rewrite Hd0 in *. rewrite app_nil_r in IH. simpl. apply Sub_app; [exact IH|apply Sub_refl].
     + unfold no_owner. destruct (m_dest m) as [u|n] eqn:Ed; [apply Quiet; [reflexivity|apply Sub_refl]|].
       destruct (negb (m_noauto m) && activatable n); [|apply Quiet; [reflexivity|apply Sub_refl]].
-      destruct (can_send cf m false); [|apply Quiet; [reflexivity|apply Sub_refl]]. cbn [fst snd].
+      destruct (can_send cf m false && negb (unknown_type m)); [|apply Quiet; [reflexivity|apply Sub_refl]]. cbn [fst snd].
       change (arrivals_in [] a d b) with (@nil msg). simpl app at 2. cbn [wrote]. rewrite Ed.
       unfold held_msgs at 1. cbn [st_held with_held]. destruct d as [u|n'].
       * simpl. rewrite andb_false_r. simpl. unfold held_msgs in IH. rewrite ?app_nil_r in *. exact IH.
